@@ -5,6 +5,8 @@
 //! instances exchanging the definition, equal dates (harmless ties), dates going backwards, entries
 //! refused by the append-only check; then every construction path is observed.
 //!
+//! One C10 case in five (`c10_concurrent_case`) sends 2..8 updates of one room without awaiting in between (`cmut`).
+//!
 //! Uids are made sequential (ascending, or descending with `uids=desc` in the case header), so the order
 //! SQLite returns equal-date rows in is determined and the model follows it. Most histories keep
 //!  * one (list, key) pair used at most once per date (no conflicting equal-date entries),
@@ -622,7 +624,121 @@ pub fn gen_c10(seed: u64, n: usize, out: &str, long: bool) {
     let mut g = Gen::new(seed);
     let mut w = std::io::BufWriter::new(std::fs::File::create(out).unwrap());
     for id in 0..n {
-        c10_case(&mut g, id as u64, &mut w, long);
+        if id % 5 == 4 {
+            c10_concurrent_case(&mut g, id as u64, &mut w, long);
+        } else {
+            c10_case(&mut g, id as u64, &mut w, long);
+        }
     }
     w.flush().unwrap();
+}
+
+/// overlapping updates of one room: `cmut` sends 2..8 updates without awaiting in between; every update touches
+/// a different (list, key) and none changes the caller's own admin / user-admin status, so neither the verdicts
+/// nor the resulting room depend on the order the service handles them in. Then live, reloaded and imported
+/// definitions are observed.
+pub fn c10_concurrent_case(g: &mut Gen, id: u64, w: &mut impl Write, long: bool) {
+    let keys = 5u64;
+    let dmax: i64 = if long { 16 } else { 10 };
+    let desc = g.chance(2, 5);
+    writeln!(w, "case id={} keys={} dmax={}{}", id, keys, dmax, if desc { " uids=desc" } else { "" }).unwrap();
+    let ng = 1 + g.below(3) as u64;
+    let mut used: HashSet<(String, u64, i64)> = HashSet::new();
+    let mut d = 1 + g.below(2) as i64;
+    // creation: the creator is admin and user admin of every group
+    let mut line = format!("mut s=0 d={} r=0 new=1 adm=1+", d);
+    used.insert(("a".into(), 1, d));
+    if g.chance(1, 3) {
+        line.push_str(",2+");
+        used.insert(("a".into(), 2, d));
+    }
+    let gl: Vec<String> = (0..ng).map(|x| x.to_string()).collect();
+    line.push_str(&format!(" grp={}", gl.join(",")));
+    for gi in 0..ng {
+        line.push_str(&format!(" g{}.ua=1+", gi));
+        used.insert((format!("{}.ua", gi), 1, d));
+        if g.chance(1, 2) {
+            let k = 2 + g.below(4) as u64;
+            line.push_str(&format!(" g{}.u={}+", gi, k));
+            used.insert((format!("{}.u", gi), k, d));
+        }
+        if g.chance(1, 2) {
+            let e = g.below(5) as u64;
+            line.push_str(&format!(" g{}.r={}:1:{}", gi, e, g.below(2)));
+            used.insert((format!("{}.r", gi), e, d));
+        }
+    }
+    writeln!(w, "{}", line).unwrap();
+    let early_import = g.chance(1, 3);
+    if early_import {
+        writeln!(w, "sync from=0 to=1 r=0").unwrap();
+    }
+    let rounds = if long { 2 + g.below(4) } else { 1 + g.below(3) };
+    for _ in 0..rounds {
+        d = match g.weighted(&[6, 3, 1]) {
+            0 => (d + 1 + g.below(2) as i64).min(dmax),
+            1 => d,
+            _ => 1 + g.below(d as usize) as i64, // backwards: items on keys with later entries are refused
+        };
+        // the pool of (list, key) pairs not used at this date
+        let mut pool: Vec<(String, u64)> = vec![];
+        for gi in 0..ng {
+            for e in 0..5u64 {
+                pool.push((format!("{}.r", gi), e));
+            }
+            for k in 1..=keys {
+                pool.push((format!("{}.u", gi), k));
+            }
+            for k in 2..=keys {
+                pool.push((format!("{}.ua", gi), k));
+            }
+        }
+        for k in 2..=keys {
+            pool.push(("a".into(), k));
+        }
+        pool.retain(|(l, k)| !used.contains(&(l.clone(), *k, d)));
+        let n = (2 + g.weighted(&[3, 3, 2, 2, 1, 1, 2])).min(pool.len());
+        if n < 2 {
+            continue;
+        }
+        let mut items: Vec<String> = vec![];
+        for _ in 0..n {
+            let i = g.below(pool.len());
+            let (l, k) = pool.swap_remove(i);
+            used.insert((l.clone(), k, d));
+            if l.ends_with(".r") {
+                let (s, a) = match g.weighted(&[4, 3, 2, 1]) {
+                    0 => (1, 1),
+                    1 => (1, 0),
+                    2 => (0, 1),
+                    _ => (0, 0),
+                };
+                items.push(format!("{}.{}:{}:{}", l, k, s, a));
+            } else {
+                items.push(format!("{}.{}{}", l, k, if g.chance(1, 4) { "-" } else { "+" }));
+            }
+        }
+        writeln!(w, "cmut s=0 d={} r=0 items={}", d, items.join(";")).unwrap();
+        writeln!(w, "obs s=0 r=0").unwrap();
+        if g.chance(1, 4) {
+            // a sequential update in between
+            let k = 2 + g.below(4) as u64;
+            if used.insert(("0.u".into(), k, d)) {
+                writeln!(w, "mut s=0 d={} r=0 grp=0 g0.u={}{}", d, k, if g.chance(1, 3) { "-" } else { "+" }).unwrap();
+            }
+        }
+        if g.chance(1, 5) {
+            writeln!(w, "restart s=0").unwrap();
+            writeln!(w, "obs s=0 r=0").unwrap();
+        }
+    }
+    writeln!(w, "obs s=0 r=0").unwrap();
+    writeln!(w, "sync from=0 to=3 r=0").unwrap();
+    writeln!(w, "obs s=3 r=0").unwrap();
+    if early_import {
+        writeln!(w, "sync from=0 to=1 r=0").unwrap();
+        writeln!(w, "obs s=1 r=0").unwrap();
+    }
+    writeln!(w, "restart s=0").unwrap();
+    writeln!(w, "obs s=0 r=0").unwrap();
 }
